@@ -35,6 +35,19 @@
   * pointer identity with the package-level singleton `nilLeaf` (`n == nilLeaf`) ↦ "is a leaf
     holding nil": the value model cannot tell the singleton from another nil leaf (Merge.lean says
     the same about `hasValue`).
+  * `map[string]dom.Leaf` (what `Flatten` returns) ↦ `LeafMap`, `map[string]dom.ContainerBuilder` (the layers of an
+    overlay document) ↦ `ContMap`: association lists like `Container`; `m[k] = v` is `AMap.insert`, `m[k]` is
+    `AMap.get?` (nil = none).
+  * a function-valued parameter (visitor, predicate) ↦ a Lean function into `Go.Res` (it may panic); the
+    equivalence theorems quantify over it.
+  * on the codec side (whitelist flag `Plain`: dom/codec.go's encoders, AsMap, AsSlice) `interface{}` ↦ `Val`,
+    `[]interface{}` ↦ `List Val`, `map[string]interface{}` ↦ `List (String × Val)`; everywhere else `interface{}` is a
+    leaf's value (`Scalar`).
+  * `Equals` / `Clone` / `SameAs` called through the `dom.Node` interface ↦ the GENERATED method tables
+    `FuncsDom.Equals` / `Clone` / `SameAs` (extract/translate_dispatch.go), proved equal to the hand-written `equals`
+    / `clone` / `sameAs` in YtkProps/C05.lean; `Child`, `Lookup` called through the `dom.Container` interface stay the
+    primitives `GoDom.child` / `GoDom.lookup` below — the translated `(*containerImpl).Child` / `Lookup` are proved
+    equal to them in YtkProps/C02.lean.
   * `uint(i)` ↦ `i.toNat` and `int(math.Max(float64(a), float64(b)))` ↦ `max a b`: exact for
     0 ≤ i < 2^53 (GoPrelude: `int` is unbounded, wrap-around and float rounding are not modelled).
 -/
